@@ -20,7 +20,8 @@ Inductive hev :=
 | HAllocBuf (id : Z) (sz : Z)                (* a byte buffer: the opaque address handed out is its ordinal *)
 | HFreeRec (p : hptr) (sz : Z)
 | HFreeBuf (a : Z) (sz : Z)
-| HWarn.
+| HWarn
+| HFail.                                      (* the test was failed (and left) through UtestShell::fail *)
 
 Definition hblock (h : heap) (b : nat) : list val := nth b h [].
 
